@@ -312,6 +312,240 @@ def probe_isk_flags(cf):
 
 
 
+# ----------------------------------------------------------------------------------------------- HAB SrkItemEcc: semantic probes
+def _exec_fn(fn, ns):
+    """compile one FunctionDef alone (decorators / annotations stripped) in the stub namespace `ns`; returns the function"""
+    mod = ast.Module(body=[copy.deepcopy(fn)], type_ignores=[])
+    for d_ in mod.body:
+        d_.decorator_list = []
+        d_.returns = None
+        for a in d_.args.args + d_.args.kwonlyargs:
+            a.annotation = None
+    ast.fix_missing_locations(mod)
+    exec(compile(mod, "<probe>", "exec"), ns)  # noqa: S102  (one extracted function body; stub globals only)
+    return ns[fn.name]
+
+
+def probe_hab_ecc(sec_tree, keys_tree, hdr_size):
+    """Field arithmetic of `SrkItemEcc.__init__` / `export` / `parse` (spsdk/image/secret.py) and of `get_ecc_curve`
+    (spsdk/crypto/keys.py) by EVALUATING the extracted function bodies on stub objects - no spsdk import.  Returns a dict or None.
+
+      export_fields : for each of the 8 bytes packed after the header (source, shift, mask); source 0 = constant `shift`,
+                      1 = flag, 2 = curve id, 3 = key_size:  byte = (source >> shift) & mask      (checked for EVERY probed key size)
+      coord_add/div : coordinate_size = (key_size + add) // div in `__init__` (what `export` writes) - fitted on all probed sizes
+      len_extra     : header.length after `__init__` = Header.SIZE + len_extra + 2 * coordinate_size
+      curve_ranges  : run-length table of `get_ecc_curve(key_size // 8)` as used by `export`: (lo, hi, curve name), else SPSDKError
+      parse_*       : byte index of flag / curve id, (index, shift) of the key_size bytes, offset of X, coordinate-size rule of `parse`
+    """
+    import math
+    import struct
+    from types import SimpleNamespace as NS
+    cls = _cls(sec_tree, "SrkItemEcc")
+    f_init, f_exp, f_parse = _fun(cls, "__init__"), _fun(cls, "export"), _fun(cls, "parse")
+    f_curve = next((n for n in keys_tree.body if isinstance(n, ast.FunctionDef) and n.name == "get_ecc_curve"), None)
+    if not (f_init and f_exp and f_parse and f_curve):
+        return None
+
+    class _Err(Exception):
+        pass
+
+    class _Names:                                   # EccCurve.SECP256R1 -> "secp256r1"; EnumSRK.KEY_PUBLIC.tag -> 0 ...
+        def __getattr__(self, nm):
+            return nm.lower()
+
+    class _Tags:
+        def __getattr__(self, nm):
+            return NS(tag=0, value="big")
+
+    builtins_ = {"len": len, "bool": bool, "int": int, "list": list, "range": range, "isinstance": isinstance, "bytes": bytes,
+                 "True": True, "False": False, "None": None, "Exception": Exception, "ValueError": ValueError, "divmod": divmod,
+                 "min": min, "max": max, "abs": abs, "round": round}
+    try:
+        curve_fn = _exec_fn(f_curve, {"__builtins__": builtins_, "EccCurve": _Names(), "SPSDKError": _Err, "SPSDKValueError": _Err})
+
+        def ns():
+            return {"__builtins__": builtins_, "math": math, "pack": struct.pack, "unpack_from": struct.unpack_from,
+                    "Endianness": NS(BIG=NS(value="big"), LITTLE=NS(value="little")), "EnumSRK": _Tags(), "EnumAlgorithm": _Tags(),
+                    "SPSDKError": _Err, "get_ecc_curve": curve_fn, "EccCurve": _Names(),
+                    "Header": type("Header", (), {"SIZE": hdr_size, "__init__": lambda s, **kw: s.__dict__.update(length=hdr_size, **kw),
+                                                  "export": lambda s: b"\xAA" * hdr_size, "parse": staticmethod(lambda *a, **k: None)})}
+        init_fn, exp_fn, parse_fn = _exec_fn(f_init, ns()), _exec_fn(f_exp, ns()), _exec_fn(f_parse, ns())
+
+        class KT(dict):                             # ECC_KEY_TYPE stub: every curve maps to one sentinel id
+            def __init__(self, v):
+                super().__init__()
+                self.v = v
+
+            def __getitem__(self, k):
+                return self.v
+
+            def values(self):
+                return [self.v]
+
+        def build(ks, x, y, flag, sentinel=0xC1):
+            o = NS(ECC_KEY_TYPE=KT(sentinel))
+            init_fn(o, ks, x, y, flag)
+            o.flag = flag
+            return o
+
+        # ---- curve ranges: get_ecc_curve(key_size // 8) as `export` calls it (argument expression read from export itself through
+        #      the sentinel-free path: ECC_KEY_TYPE stub that records its key)
+        seen = {}
+
+        class Rec(dict):
+            def __getitem__(self, k):
+                seen["k"] = k
+                return 0
+
+        sizes = list(range(0, 1100))
+        cur = {}
+        for ks in sizes:
+            o = NS(ECC_KEY_TYPE=Rec())
+            try:
+                init_fn(o, ks, 0, 0, 0)
+                o.flag = 0
+                seen.pop("k", None)
+                exp_fn(o)
+                cur[ks] = str(seen.get("k"))
+            except _Err:
+                cur[ks] = None
+        ranges, lo = [], None
+        for ks in sizes + [None]:
+            v = cur.get(ks) if ks is not None else None
+            if lo is not None and (ks is None or v != cur[lo]):
+                ranges.append((lo, (ks if ks is not None else sizes[-1] + 1) - 1, cur[lo]))
+                lo = None
+            if ks is not None and v is not None and lo is None:
+                lo = ks
+        ok_sizes = [ks for ks in sizes if cur[ks] is not None]
+
+        # ---- coordinate size written by __init__/export, header length
+        cs_of = {}
+        for ks in ok_sizes:
+            o = build(ks, 0, 0, 0)
+            data = exp_fn(o)
+            n = len(data) - hdr_size - 8
+            if n < 0 or n % 2:
+                return None
+            cs_of[ks] = n // 2
+            if o._header.length != hdr_size + 8 + n:
+                return None
+        fit = [(a, dv) for dv in (8,) for a in range(dv) if all(cs_of[ks] == (ks + a) // dv for ks in ok_sizes)]
+        if not fit:
+            return None
+        add, div = fit[0]
+        # X then Y, big endian, at the fixed width
+        for ks in (256, 384, 521):
+            csz = cs_of[ks]
+            data = exp_fn(build(ks, 0x0102, 0x0304, 0))
+            if data[hdr_size + 8:] != (0x0102).to_bytes(csz, "big") + (0x0304).to_bytes(csz, "big"):
+                return None
+
+        # ---- the 8 packed bytes
+        def body(ks, flag, sentinel=0xC1):
+            return exp_fn(build(ks, 0, 0, flag, sentinel))[hdr_size:hdr_size + 8]
+        fields = []
+        for i in range(8):
+            col = {ks: body(ks, 0)[i] for ks in ok_sizes}
+            if body(256, 0, 0xC2)[i] != body(256, 0, 0xC1)[i]:
+                ok = all(body(ks, 0, s)[i] == s for ks in (256, 384, 521) for s in (0x01, 0x4B, 0xFF))
+                fields.append((2, 0, 255) if ok else None)
+            elif body(256, 0xFF)[i] != body(256, 0)[i]:
+                m = body(256, 0xFF)[i]
+                ok = all(body(ks, fl)[i] == fl & m for ks in (256, 384, 521) for fl in (0, 1, 0x80, 0xFF))
+                fields.append((1, 0, m) if ok else None)
+            elif len(set(col.values())) == 1:
+                fields.append((0, col[ok_sizes[0]], 0))
+            else:
+                sh = next((s for s in range(0, 17) if all(col[ks] == (ks >> s) & 0xFF for ks in ok_sizes)), None)
+                fields.append((3, sh, 255) if sh is not None else None)
+        if any(f is None for f in fields):
+            return None
+
+        # ---- parse: positions by differential probing on the raw bytes
+        class PC:
+            ECC_KEY_TYPE = {"a": 0x4B}
+
+            def __init__(self, *a):
+                self.a = a
+
+        def prs(data):
+            return parse_fn(PC, bytes(data)).a                    # (key_size, x, y, flag)
+        L = hdr_size + 8
+        zero = bytearray(L + 300)
+        curve_idx = []
+        for j in range(L):
+            dd = bytearray(zero)
+            dd[j] = 0x4B
+            try:
+                prs(dd)
+                curve_idx.append(j)
+            except _Err:
+                pass
+        if len(curve_idx) != 1:
+            return None
+        base = bytearray(zero)
+        base[curve_idx[0]] = 0x4B
+        if prs(base) != (0, 0, 0, 0):
+            return None
+        flag_idx, ks_idx = [], []
+        for j in range(L):
+            if j == curve_idx[0]:
+                continue
+            dd = bytearray(base)
+            dd[j] = 1
+            ks, _, _, fl = prs(dd)
+            if fl == 1:
+                flag_idx.append(j)
+            if ks:
+                ks_idx.append((j, _log2_exact(ks)))
+        if len(flag_idx) != 1 or not ks_idx or any(s == BAD for _, s in ks_idx):
+            return None
+
+        def with_ks(ks):
+            dd = bytearray(base)
+            for j, s in ks_idx:
+                dd[j] = (ks >> s) & 0xFF
+            return dd
+        p_cs, p_off = {}, set()
+        for ks in list(range(0, 1100)) + [4095, 4096, 65535 // 32]:
+            dd = with_ks(ks)
+            if sum(dd[j] << s for j, s in ks_idx) != ks:
+                continue
+            tail = len(dd) - L
+            dd[L:] = b"\xFF" * tail
+            k2, x, y, _ = prs(dd)
+            if k2 != ks:
+                return None
+            p_cs[ks] = (x.bit_length() + 7) // 8
+            if p_cs[ks] * 2 <= tail and y != x:
+                return None
+            if p_cs[ks]:
+                for off in range(max(L - 4, 0), L + 8):
+                    if off in (curve_idx[0], flag_idx[0]) or off in [j for j, _ in ks_idx]:
+                        continue
+                    d2 = with_ks(ks)
+                    d2[off] = 1
+                    if prs(d2)[1]:
+                        p_off.add(off)
+                        break
+        pfit = [(a, dv) for dv in (8,) for a in range(dv) if all(v == (ks + a) // dv for ks, v in p_cs.items() if (ks + 7) // 8 * 2 <= 300)]
+        if not pfit or len(p_off) != 1:
+            return None
+        # full check: parse(export(item)) gives the item back for the three curves
+        for ks in (256, 384, 521):
+            for fl in (0, 0x80):
+                x, y = (1 << (ks - 1)) | 5, 7
+                got = prs(exp_fn(build(ks, x, y, fl, 0x4B)))
+                if got != (ks, x, y, fl):
+                    return None
+        return {"export_fields": fields, "coord_add": add, "coord_div": div, "len_extra": 8, "curve_ranges": ranges,
+                "parse_flag_idx": flag_idx[0], "parse_curve_idx": curve_idx[0], "parse_bits_idx": sorted(ks_idx),
+                "parse_coord_off": p_off.pop(), "parse_coord_add": pfit[0][0], "parse_coord_div": pfit[0][1]}
+    except Exception:  # noqa: BLE001
+        return None
+
+
 # ----------------------------------------------------------------------------------------------- reading BY VALUE (consteval)
 _ENVS = {}
 
@@ -855,9 +1089,33 @@ def gen_RotTypes():
       "[" + ", ".join(f"({lstr(str(k).lower())}, {nat(v)})" for k, v in sorted(pairs_of(t, cnode(t, "SrkItemEcc", "ECC_KEY_TYPE"), "SrkItemEcc"), key=lambda kv: str(kv[0]))) + "]")
     src = ast.unparse(_fun(_cls(t, "SrkTable"), "export_fuses") or ast.parse("0"))
     pat("habFusesIsHashOfItemHashes", "data += srk.sha256()" in src and "return sha256(data).digest()" in src)
+    t_sec = t
     t = parse(HDR)
     canon, _ = fmt_of(cval(t, "Header", "FORMAT", ""))
     d("habHeaderFormat", "String", lstr(canon))
+    hsz = cval(t, "Header", "SIZE")
+    d("habHeaderSize", "Nat", nat(hsz))
+    # SrkItemEcc field arithmetic (phase 3): evaluated semantically, so `key_size >> 8 & 0xFF` / `key_size // 256 % 256` /
+    # `pack(">3xBBxH", ...)` regenerate the same text, while writing coordinate_size * 8 instead of key_size does not
+    hp_ = probe_hab_ecc(t_sec, parse("spsdk/crypto/keys.py"), hsz) if isinstance(hsz, int) and 0 < hsz < 64 else None
+    meta["hab_ecc_mode"] = "probed (semantic)" if hp_ else "untranslatable (impossible values emitted)"
+    hp_ = hp_ or {"export_fields": [(9, BAD, BAD)], "coord_add": BAD, "coord_div": BAD, "len_extra": BAD, "curve_ranges": [],
+                  "parse_flag_idx": BAD, "parse_curve_idx": BAD, "parse_bits_idx": [], "parse_coord_off": BAD,
+                  "parse_coord_add": BAD, "parse_coord_div": BAD}
+    d("habEccExportFields", "List (Nat × Nat × Nat)", "[" + ", ".join(f"({a}, {b}, {c})" for a, b, c in hp_["export_fields"]) + "]",
+      "`SrkItemEcc.export`: the bytes packed after the header as (source, shift, mask): byte = (source >> shift) & mask with source "
+      "1 = flag, 2 = curve id, 3 = key_size (BITS); source 0 = the constant `shift`")
+    d("habEccCoordAdd", "Nat", nat(hp_["coord_add"]), "`SrkItemEcc.__init__`: coordinate_size = (key_size + add) / div")
+    d("habEccCoordDiv", "Nat", nat(hp_["coord_div"]))
+    d("habEccLenExtra", "Nat", nat(hp_["len_extra"]), "header.length = Header.SIZE + extra + 2 * coordinate_size")
+    d("habEccCurveRanges", "List (Nat × Nat × String)", "[" + ", ".join(f"({a}, {b}, {lstr(c)})" for a, b, c in hp_["curve_ranges"]) + "]",
+      "`get_ecc_curve(key_size // 8)` as `export` calls it: (lo, hi, curve) runs of key_size; outside: SPSDKError")
+    d("habEccParseFlagIdx", "Nat", nat(hp_["parse_flag_idx"]), "`SrkItemEcc.parse`: byte positions read")
+    d("habEccParseCurveIdx", "Nat", nat(hp_["parse_curve_idx"]))
+    d("habEccParseBitsIdx", "List (Nat × Nat)", lpairs(hp_["parse_bits_idx"]), "key_size = sum of data[i] << shift")
+    d("habEccParseCoordOff", "Nat", nat(hp_["parse_coord_off"]))
+    d("habEccParseCoordAdd", "Nat", nat(hp_["parse_coord_add"]))
+    d("habEccParseCoordDiv", "Nat", nat(hp_["parse_coord_div"]))
     e = enum_tags(t, "SegTag")
     d("habTagCrt", "Nat", nat(e.get("CRT")))
 
